@@ -6,6 +6,7 @@ their pinned value, remaining axes at the same USER value) within the rounding b
 original's own variation data allow (vf/varbudget.py)."""
 
 import io
+import re
 import math
 import random
 
@@ -106,6 +107,77 @@ class Excluded(Exception):
     pass
 
 
+_FEA_NAME = re.compile(r"^[A-Za-z_][A-Za-z0-9_.]*$")
+
+
+def varfea_text(font, k):
+    """Layout for variant varfea:<k>: a pure function of the font and k.  Variable kerning (glyph pairs, two class
+    subtables whose first-glyph coverages overlap), variable mark-free single positioning, and feature variations with
+    the SAME condition set in GSUB and GPOS, plus one condition set of its own in each table."""
+    rnd = random.Random(k)
+    order = font.getGlyphOrder()
+    cmap = font.getBestCmap() or {}
+    hmtx = font["hmtx"]
+    pool = [g for g in order if g in set(cmap.values()) and _FEA_NAME.match(g) and hmtx[g][0] > 0]
+    if len(pool) < 4:
+        return None
+    rnd.shuffle(pool)
+    pool = pool[:6]
+    axes = [(a.axisTag, a.minValue, a.defaultValue, a.maxValue) for a in font["fvar"].axes]
+
+    def scalar(lo, hi):
+        # the default location and one to three others
+        locs = [{}]
+        for _ in range(rnd.randint(1, 3)):
+            loc = {}
+            for tag, mn, df, mx in rnd.sample(axes, rnd.randint(1, min(2, len(axes)))):
+                v = rnd.choice([mn, mx, round((df + mx) / 2), round((df + mn) / 2)])
+                if v != df:
+                    loc[tag] = v
+            if loc and loc not in locs:
+                locs.append(loc)
+        parts = []
+        for loc in locs:
+            full = {tag: loc.get(tag, df) for tag, mn, df, mx in axes}
+            parts.append("%s:%d" % (",".join("%s=%s" % (t, _fea_num(v)) for t, v in full.items()), rnd.randint(lo, hi)))
+        return "(" + " ".join(parts) + ")" if len(parts) > 1 else parts[0].split(":")[1]
+
+    seen = set()
+
+    def cond(name):
+        # three different regions: feaLib folds equal condition sets into one record that then names a feature twice
+        while True:
+            tag, mn, df, mx = rnd.choice(axes)
+            a, b = sorted(rnd.sample([mn, round(mn + (mx - mn) * 0.3), round(mn + (mx - mn) * 0.55), round(mn + (mx - mn) * 0.8), mx], 2))
+            if (tag, a, b) not in seen:
+                seen.add((tag, a, b))
+                return "conditionset %s { %s %s %s; } %s;" % (name, tag, _fea_num(a), _fea_num(b), name)
+
+    g = pool
+    out = ["languagesystem DFLT dflt;", cond("both"), cond("onlysub"), cond("onlypos")]
+    out.append("feature kern {")
+    out.append("  pos %s %s %s;" % (g[0], g[1], scalar(-80, 80)))
+    out.append("  pos [%s %s] [%s] %s;" % (g[0], g[1], g[2], scalar(-80, 80)))
+    out.append("  pos [%s] [%s %s] %s;" % (g[2], g[0], g[3], scalar(-80, 80)))
+    out.append("  subtable;")
+    # g[1] (and sometimes g[2]) is a first glyph in both class subtables: the earlier one decides its pairs
+    first = [g[1], g[3]] + ([g[2]] if rnd.random() < 0.5 else [])
+    out.append("  pos [%s] [%s %s] %s;" % (" ".join(first), g[2], g[0], scalar(-80, 80)))
+    if len(g) > 4:
+        out.append("  pos [%s] [%s %s] %s;" % (g[4], g[1], g[3], scalar(-80, 80)))
+    out.append("} kern;")
+    out.append("variation kern both { pos %s %s %d; pos %s <%d 0 %d 0>; } kern;" % (g[0], g[2], rnd.randint(20, 90), g[3], rnd.randint(5, 40), rnd.randint(5, 40)))
+    out.append("variation kern onlypos { pos %s %s %d; } kern;" % (g[1], g[2], rnd.randint(-90, -20)))
+    out.append("feature rlig { sub %s by %s; } rlig;" % (g[3], g[3]))
+    out.append("variation rlig both { sub %s by %s; } rlig;" % (g[0], g[1]))
+    out.append("variation rlig onlysub { sub %s by %s; } rlig;" % (g[2], g[3]))
+    return "\n".join(out) + "\n"
+
+
+def _fea_num(v):
+    return "%d" % v if float(v) == int(v) else "%s" % v
+
+
 class FontCtx:
     def __init__(self, fid):
         from fontTools.ttLib import TTFont, newTable
@@ -121,7 +193,7 @@ class FontCtx:
             # advance source.  noavar: user space maps linearly onto the design space (asymmetric
             # two-sided axes then exercise the distance-weighted renormalisation); nohvar: advances
             # come from gvar phantom points only
-            drop = {"noavar": ["avar"], "nohvar": ["HVAR", "VVAR"], "varmarks": []}[variant]
+            drop = {"noavar": ["avar"], "nohvar": ["HVAR", "VVAR"], "varmarks": []}.get(variant, [])
             for t in drop:
                 if t in font:
                     del font[t]
@@ -132,6 +204,19 @@ class FontCtx:
                 from fontTools.feaLib.builder import addOpenTypeFeaturesFromString
 
                 addOpenTypeFeaturesFromString(font, VARMARKS_FEA[base])
+            if variant.startswith("varfea:"):
+                # generated layout in feaLib's variable syntax (same standing as varmarks: original and instance both
+                # derive from the compiled font)
+                from fontTools.feaLib.builder import addOpenTypeFeaturesFromString
+
+                fea = varfea_text(font, int(variant.split(":")[1]))
+                if fea is None:
+                    raise Excluded("varfea: fewer than four encoded glyphs with a feature-file name")
+                for t in ("GSUB", "GPOS", "GDEF"):
+                    if t in font:
+                        del font[t]
+                addOpenTypeFeaturesFromString(font, fea)
+                variant = "varfea"
             buf = io.BytesIO()
             font.save(buf)
             data = buf.getvalue()
@@ -566,6 +651,12 @@ def jobs(tier, seed):
         if {"glyf", "gvar", "HVAR"} <= t:
             fids.append(e["id"] + "@nohvar")
     fids.extend(b + "@varmarks" for b in sorted(VARMARKS_FEA))
+    for e in corpus.fonts(lambda e: e["variable"]):
+        t = set(e["tables"])
+        if "VARC" in t or e["numGlyphs"] < 5 or not ({"glyf", "CFF2"} & t) or "Amstelvar-avar2" in e["id"]:
+            continue
+        for j in range(3 if thorough else 1):
+            fids.append("%s@varfea:%d" % (e["id"], subseed(seed, "varfea", e["id"], j) % 100000))
     for fid in fids:
         for c0 in range(0, nsets, chunk):
             J.append(
@@ -977,6 +1068,29 @@ def check_location(ctx, acc, sub, loc, triples, pinned, limited, Dnorm_v, eps, h
         hbo.set_location(Lfull)
         return res
 
+    def featvar_sig(vec):
+        """per table: index of the first FeatureVariations record whose conditions hold at the normalised vector"""
+        at = dict(zip(ctx.tags, vec))
+        sig = []
+        for t in sorted(ctx.featvar_records):
+            hit = None
+            for ri, conds in enumerate(ctx.featvar_records[t]):
+                if all(c is not None and c[1] <= at.get(c[0], 0.0) <= c[2] for c in conds):
+                    hit = ri
+                    break
+            sig.append(hit)
+        return sig
+
+    def on_featvar_boundary():
+        """a 3/16384 nudge of the ORIGINAL's normalised coordinates selects another FeatureVariations record"""
+        nonlocal nudges
+        if not ctx.featvar_records:
+            return False
+        if nudges is None:
+            nudges = _nudged(ctx, Lnorm_v)
+        ref = featvar_sig(Lnorm_v)
+        return any(featvar_sig(v) != ref for v in nudges)
+
     # ---- (1) outlines, (2) advances
     names = ctx.order
     if len(names) > 200:
@@ -1186,6 +1300,11 @@ def check_location(ctx, acc, sub, loc, triples, pinned, limited, Dnorm_v, eps, h
                     break
             if bad:
                 break
+        if bad and on_featvar_boundary():
+            # the location sits on the edge of a condition range: which side the renormalised, re-quantised edge of the
+            # instance falls on is not determined (same rule as for glyph sequences above)
+            acc.label("shape:boundary-unstable")
+            continue
         if bad:
             acc.fail("shaping", "positions", "%s run %r at %r: %s" % (ctx.fid, run, Lpart, bad), dict(sub, run=run))
     return info
@@ -1233,7 +1352,7 @@ MUST_HAVE = [
     "has:HVAR", "has:MVAR", "has:variable-GDEF/GPOS", "opt:optimize=True", "opt:optimize=False", "outline:compared",
     "advance:compared", "metric:compared", "shape:compared", "shape:gpos-adjusted", "shape:gsub-changed",
     "has:FeatureVariations", "has:avar2", "has:VVAR", "opt:static", "opt:inplace=True", "variant:noavar", "variant:nohvar",
-    "variant:varmarks", "name-added",
+    "variant:varmarks", "name-added", "variant:varfea",
 ]  # fmt: skip
 
 
